@@ -90,3 +90,302 @@ Proof.
     pose proof (reconcile_old_new_le (set_new d (new_rs_new_replicas d))) as Hle. cbn in Hle. rewrite E3 in Hle. specialize (Hle Hn0).
     rewrite E3 in Hup. lia.
 Qed.
+
+(* ================= the old ReplicaSets: reserve and availability ================= *)
+Definition spec_at (l : list rs) (i : nat) : Z := match nth_error l i with Some r => r_spec r | None => 0 end.
+Definition avail_at (l : list rs) (i : nat) : Z := match nth_error l i with Some r => r_avail r | None => 0 end.
+Definition nonneg (l : list rs) : Prop := forall r, In r l -> 0 <= r_avail r <= r_spec r.
+Definition sumkept (l : list rs) : Z := fold_right (fun r a => kept_avail r + a) 0 l.
+
+Lemma sumspec_cons r l : sumspec (r :: l) = r_spec r + sumspec l. Proof. reflexivity. Qed.
+Lemma sumavail_cons r l : sumavail (r :: l) = r_avail r + sumavail l. Proof. reflexivity. Qed.
+Lemma sumkept_cons r l : sumkept (r :: l) = kept_avail r + sumkept l. Proof. reflexivity. Qed.
+Lemma nonneg_cons r l : nonneg (r :: l) <-> (0 <= r_avail r <= r_spec r) /\ nonneg l.
+Proof. unfold nonneg. split.
+  - intros H. split; [apply H; left; reflexivity|intros x Hx; apply H; right; exact Hx].
+  - intros [H1 H2] x [<-|Hx]; auto. Qed.
+Lemma nonneg_sums l : nonneg l -> 0 <= sumavail l <= sumspec l /\ sumkept l = sumavail l.
+Proof. induction l as [|r l IH]; intros H; [cbn; lia|]. apply nonneg_cons in H. destruct H as [Hr Hl]. specialize (IH Hl).
+  rewrite sumspec_cons, sumavail_cons, sumkept_cons. unfold kept_avail. lia. Qed.
+
+(* ---- cleanupUnhealthyReplicas ---- *)
+Ltac split_and := repeat match goal with |- _ /\ _ => split end.
+Lemma cleanup_spec l : forall m l1 t, cleanup l m = (l1, t) -> nonneg l ->
+  nonneg l1 /\ List.length l1 = List.length l /\ 0 <= t <= Z.max 0 m /\ sumspec l1 = sumspec l - t /\ sumavail l1 = sumavail l /\
+  (forall i, spec_at l1 i <= spec_at l i).
+Proof.
+  induction l as [|r l IH]; intros m l1 t H Hn.
+  - cbn in H. injection H as <- <-. split_and; auto; try lia; try (cbn; lia).
+  - apply nonneg_cons in Hn. destruct Hn as [Hr Hl]. cbn [cleanup] in H.
+    destruct (m <=? 0) eqn:Em.
+    { injection H as <- <-. split_and; auto; try lia; try (intros i; lia). apply nonneg_cons; auto. }
+    apply Z.leb_gt in Em.
+    destruct ((r_spec r =? 0) || (r_spec r =? r_avail r)) eqn:Esk.
+    + destruct (cleanup l m) as [l2 t2] eqn:Hc. injection H as <- <-.
+      destruct (IH _ _ _ Hc Hl) as [N [L [T [S [A P]]]]].
+      split_and; try lia.
+      * apply nonneg_cons; auto.
+      * cbn [List.length]; lia.
+      * rewrite !sumspec_cons; lia.
+      * rewrite !sumavail_cons; lia.
+      * intros [|i]; unfold spec_at; cbn [nth_error]; [lia|apply P].
+    + apply orb_false_iff in Esk. destruct Esk as [E1 E2]. apply Z.eqb_neq in E1, E2.
+      destruct (cleanup l (m - Z.min m (r_spec r - r_avail r))) as [l2 t2] eqn:Hc. injection H as <- <-.
+      destruct (IH _ _ _ Hc Hl) as [N [L [T [S [A P]]]]].
+      split_and; try lia.
+      * apply nonneg_cons. split; [cbn; lia|exact N].
+      * cbn [List.length]; lia.
+      * rewrite !sumspec_cons. cbn [r_spec]. lia.
+      * rewrite !sumavail_cons. cbn [r_avail]. lia.
+      * intros [|i]; unfold spec_at; cbn [nth_error r_spec]; [lia|apply P].
+Qed.
+
+(* ---- the scale-down loop ---- *)
+Definition red (get : slot -> Z) (ups : list (slot * Z)) : Z := fold_right (fun xv a => (get (fst xv) - snd xv) + a) 0 ups.
+Definition red_old (get : slot -> Z) (ups : list (slot * Z)) : Z :=
+  fold_right (fun xv a => match fst xv with SOld _ => get (fst xv) - snd xv | SNew => 0 end + a) 0 ups.
+
+Lemma scale_slots_spec get : (forall x, 0 <= get x) -> forall l m,
+  (forall x v, In (x, v) (scale_slots get l m) -> 0 <= v <= get x) /\
+  0 <= red_old get (scale_slots get l m) <= red get (scale_slots get l m) /\ red get (scale_slots get l m) <= Z.max 0 m.
+Proof.
+  intros Hg. induction l as [|y l IH]; intros m; cbn [scale_slots].
+  - split; [intros x v []|cbn; lia].
+  - destruct (m <=? 0) eqn:Em; [split; [intros x v []|cbn; lia]|]. apply Z.leb_gt in Em.
+    destruct (get y =? 0); [destruct (IH m) as [A B]; split; [exact A|lia]|].
+    destruct (IH (m - Z.min (get y) m)) as [A [B C]]. pose proof (Hg y) as Hy. split.
+    + intros x v [E|Hin]; [injection E as <- <-; lia|apply A; exact Hin].
+    + cbn [red red_old fold_right fst snd]. fold (red get (scale_slots get l (m - Z.min (get y) m))).
+      fold (red_old get (scale_slots get l (m - Z.min (get y) m))). destruct y; lia.
+Qed.
+
+Lemma sumspec_zupd l : forall i v, sumspec (zupd l i (fun r => {| r_spec := v; r_avail := r_avail r |})) =
+  sumspec l + (if Nat.ltb i (List.length l) then v - spec_at l i else 0).
+Proof. induction l as [|r l IH]; intros i v; [destruct i; reflexivity|]. destruct i as [|i]; cbn [zupd].
+  - rewrite !sumspec_cons. cbn. unfold spec_at. cbn. lia.
+  - rewrite !sumspec_cons, IH. unfold spec_at. cbn [nth_error List.length]. change (Nat.ltb (S i) (S (List.length l))) with (Nat.ltb i (List.length l)). lia. Qed.
+Lemma sumkept_zupd l : forall i v, sumkept (zupd l i (fun r => {| r_spec := v; r_avail := r_avail r |})) =
+  sumkept l + (if Nat.ltb i (List.length l) then Z.min (avail_at l i) v - Z.min (avail_at l i) (spec_at l i) else 0).
+Proof. induction l as [|r l IH]; intros i v; [destruct i; reflexivity|]. destruct i as [|i]; cbn [zupd].
+  - rewrite !sumkept_cons. unfold kept_avail, spec_at, avail_at. cbn. lia.
+  - rewrite !sumkept_cons, IH. unfold spec_at, avail_at. cbn [nth_error List.length]. change (Nat.ltb (S i) (S (List.length l))) with (Nat.ltb i (List.length l)). lia. Qed.
+Lemma spec_at_zupd l : forall i j v, spec_at (zupd l i (fun r => {| r_spec := v; r_avail := r_avail r |})) j =
+  if Nat.eqb i j && Nat.ltb i (List.length l) then v else spec_at l j.
+Proof. induction l as [|r l IH]; intros i j v.
+  - replace (Nat.ltb i (List.length (@nil rs))) with false by (destruct i; reflexivity). rewrite andb_false_r. destruct i; reflexivity.
+  - destruct i as [|i], j as [|j]; cbn [zupd]; unfold spec_at in *; cbn [nth_error]; try reflexivity.
+    rewrite IH. cbn [List.length]. reflexivity. Qed.
+Lemma spec_at_out l i : (List.length l <= i)%nat -> spec_at l i = 0.
+Proof. intros H. unfold spec_at. apply nth_error_None in H. rewrite H. reflexivity. Qed.
+Lemma zupd_len {A} (l : list A) i f : List.length (zupd l i f) = List.length l.
+Proof. revert i. induction l as [|x l IH]; intros [|i]; cbn; auto. Qed.
+
+(* the updates are applied to a state that is pointwise below the reference sizes get0 *)
+Definition below (get0 : slot -> Z) (d : dstate) : Prop :=
+  r_spec (d_new d) <= get0 SNew /\ forall i, spec_at (d_olds d) i <= get0 (SOld i).
+Definition keptD (d : dstate) : Z := kept_avail (d_new d) + sumkept (d_olds d).
+
+Lemma apply_slot_step get0 d x v : (forall y, 0 <= get0 y) -> below get0 d -> 0 <= v <= get0 x ->
+  let d' := apply_slot d (x, v) in
+  below get0 d' /\
+  sumspec (d_olds d') >= sumspec (d_olds d) - (match x with SOld _ => get0 x - v | SNew => 0 end) /\
+  keptD d' >= keptD d - (get0 x - v) /\ d_n d' = d_n d /\ d_partition d' = d_partition d /\ d_surge d' = d_surge d /\ d_unavail d' = d_unavail d.
+Proof.
+  intros Hg [Bn Bo] Hv. unfold apply_slot. cbn [fst snd]. destruct x as [|i].
+  - cbn [set_new d_olds d_new d_n d_partition d_surge d_unavail r_spec]. split_and; try reflexivity.
+    + split; [cbn; lia|exact Bo].
+    + lia.
+    + unfold keptD, kept_avail. cbn [set_new d_olds d_new r_spec r_avail]. lia.
+  - cbn [set_olds d_olds d_new d_n d_partition d_surge d_unavail]. split_and; try reflexivity.
+    + unfold below. cbn [set_olds d_olds d_new]. split; [exact Bn|]. intros j. rewrite spec_at_zupd.
+      destruct (Nat.eqb i j && Nat.ltb i (List.length (d_olds d))) eqn:E; [|apply Bo].
+      apply andb_true_iff in E. destruct E as [E _]. apply Nat.eqb_eq in E. subst j. lia.
+    + rewrite sumspec_zupd. specialize (Bo i). destruct (Nat.ltb i (List.length (d_olds d))); lia.
+    + unfold keptD. cbn [d_new d_olds set_olds]. rewrite sumkept_zupd. specialize (Bo i). destruct (Nat.ltb i (List.length (d_olds d))); lia.
+Qed.
+
+Lemma fold_apply_bounds get0 : (forall y, 0 <= get0 y) -> forall ups d, below get0 d ->
+  (forall x v, In (x, v) ups -> 0 <= v <= get0 x) ->
+  let d' := fold_left apply_slot ups d in
+  sumspec (d_olds d') >= sumspec (d_olds d) - red_old get0 ups /\ keptD d' >= keptD d - red get0 ups /\
+  d_n d' = d_n d /\ d_partition d' = d_partition d /\ d_surge d' = d_surge d /\ d_unavail d' = d_unavail d.
+Proof.
+  intros Hg. induction ups as [|[x v] ups IH]; intros d Hb Hin; cbn [fold_left].
+  - cbn. split_and; try reflexivity; lia.
+  - destruct (apply_slot_step get0 d x v Hg Hb (Hin x v (or_introl eq_refl))) as [Hb' [S1 [K1 [E1 [E2 [E3 E4]]]]]].
+    destruct (IH (apply_slot d (x, v)) Hb' (fun x' v' H => Hin x' v' (or_intror H))) as [S2 [K2 [F1 [F2 [F3 F4]]]]].
+    cbn [red red_old fold_right fst snd]. fold (red get0 ups). fold (red_old get0 ups).
+    split_and; try congruence; lia.
+Qed.
+
+(* ---- what the loop may take: sums over the visited slots ---- *)
+Definition sumf {A} (f : A -> Z) (l : list A) : Z := fold_right (fun x a => f x + a) 0 l.
+Lemma sumf_cons {A} (f : A -> Z) x l : sumf f (x :: l) = f x + sumf f l. Proof. reflexivity. Qed.
+Lemma sumf_nil {A} (f : A -> Z) : sumf f [] = 0. Proof. reflexivity. Qed.
+Lemma sumf_app {A} (f : A -> Z) l1 l2 : sumf f (l1 ++ l2) = sumf f l1 + sumf f l2.
+Proof. induction l1 as [|x l1 IH]; [reflexivity|]. rewrite <- app_comm_cons, !sumf_cons, IH. lia. Qed.
+Lemma sumf_rev {A} (f : A -> Z) l : sumf f (rev l) = sumf f l.
+Proof. induction l as [|x l IH]; [reflexivity|]. cbn [rev]. rewrite sumf_app, IH, !sumf_cons, sumf_nil. lia. Qed.
+Lemma sumf_nonneg {A} (f : A -> Z) l : (forall x, 0 <= f x) -> 0 <= sumf f l.
+Proof. intros H. induction l as [|x l IH]; [rewrite sumf_nil; lia|]. rewrite sumf_cons. specialize (H x). lia. Qed.
+Lemma sumf_firstn {A} (f : A -> Z) l : (forall x, 0 <= f x) -> forall k, sumf f (firstn k l) <= sumf f l.
+Proof. intros H. induction l as [|x l IH]; intros [|k]; cbn [firstn]; rewrite ?sumf_cons, ?sumf_nil; try lia.
+  - pose proof (sumf_nonneg f l H). specialize (H x). lia.
+  - specialize (IH k). lia. Qed.
+Lemma sumf_map {A B} (f : B -> Z) (g : A -> B) l : sumf f (map g l) = sumf (fun x => f (g x)) l.
+Proof. induction l as [|x l IH]; [reflexivity|]. cbn [map]. rewrite !sumf_cons, IH. reflexivity. Qed.
+Lemma sumf_filter_combine {B} (g : nat -> Z) (p : nat * B -> bool) : (forall i, 0 <= g i) -> forall s (l : list B),
+  sumf (fun ir => g (fst ir)) (filter p (combine s l)) <= sumf g s.
+Proof. intros Hg. induction s as [|i s IH]; intros l; [cbn [combine filter]; rewrite !sumf_nil; lia|]. destruct l as [|b l]; cbn [combine filter].
+  - pose proof (sumf_nonneg g (i :: s) Hg). rewrite sumf_nil. lia.
+  - specialize (IH l). specialize (Hg i). rewrite sumf_cons. destruct (p (i, b)); rewrite ?sumf_cons; cbn [fst]; lia. Qed.
+Lemma sumf_ext_in {A} (f g : A -> Z) l : (forall x, In x l -> f x = g x) -> sumf f l = sumf g l.
+Proof. induction l as [|x l IH]; intros H; [reflexivity|]. rewrite !sumf_cons, IH, (H x) by (try (left; reflexivity); intros y Hy; apply H; right; exact Hy). reflexivity. Qed.
+Lemma sumf_seq_spec l : forall a, sumf (fun i => spec_at l (i - a)) (seq a (List.length l)) = sumspec l.
+Proof. induction l as [|r l IH]; intros a; [reflexivity|]. cbn [List.length seq]. rewrite sumf_cons, sumspec_cons.
+  replace (a - a)%nat with O by lia. unfold spec_at at 1. cbn [nth_error]. f_equal.
+  rewrite <- (IH (S a)). apply sumf_ext_in. intros i Hi. apply in_seq in Hi.
+  replace (i - a)%nat with (S (i - S a)) by lia. unfold spec_at. cbn [nth_error]. reflexivity.
+Qed.
+
+(* the loop takes from the OLD ReplicaSets at most what the slots behind a possibly leading new-ReplicaSet slot hold
+   above the reserve R -- also when the (aliased) slice starts with the new ReplicaSet, which is then shrunk first *)
+Lemma walk_red_old get walk rest cnt R : (forall x, 0 <= get x) -> (walk = rest \/ walk = SNew :: rest) ->
+  cnt <= sumf get walk - R ->
+  red_old get (scale_slots get walk cnt) <= Z.max 0 (sumf get rest - R).
+Proof.
+  intros Hg Hw Hc. destruct Hw as [-> | ->].
+  - destruct (scale_slots_spec get Hg rest cnt) as [_ [A B]]. lia.
+  - rewrite sumf_cons in Hc. cbn [scale_slots]. destruct (cnt <=? 0) eqn:E0; [cbn; lia|]. apply Z.leb_gt in E0.
+    destruct (get SNew =? 0) eqn:En.
+    + apply Z.eqb_eq in En. destruct (scale_slots_spec get Hg rest cnt) as [_ [A B]]. lia.
+    + cbn [red_old fold_right fst snd]. fold (red_old get (scale_slots get rest (cnt - Z.min (get SNew) cnt))).
+      destruct (scale_slots_spec get Hg rest (cnt - Z.min (get SNew) cnt)) as [_ [A B]]. pose proof (Hg SNew). lia.
+Qed.
+
+Lemma spec_at_nonneg l i : nonneg l -> 0 <= spec_at l i.
+Proof. intros H. unfold spec_at. destruct (nth_error l i) as [r|] eqn:E; [|lia]. apply nth_error_In in E. specialize (H r E). lia. Qed.
+
+Lemma active_sum l1 olds (p : nat * rs -> bool) : nonneg l1 -> List.length l1 = List.length olds ->
+  sumf (fun x => match x with SNew => 0 | SOld i => spec_at l1 i end)
+       (map (fun ir : nat * rs => SOld (fst ir)) (filter p (combine (seq 0 (List.length olds)) olds))) <= sumspec l1.
+Proof.
+  intros Hn Hl. rewrite sumf_map. cbn [fst].
+  eapply Z.le_trans; [apply (sumf_filter_combine (spec_at l1) p (fun i => spec_at_nonneg l1 i Hn))|].
+  rewrite <- Hl, <- (sumf_seq_spec l1 0). apply Z.eq_le_incl. apply sumf_ext_in. intros i _. f_equal. lia.
+Qed.
+
+Lemma scale_up_old_ge l c : sumspec (scale_up_old l c) >= sumspec l /\ sumkept (scale_up_old l c) >= sumkept l.
+Proof.
+  unfold scale_up_old. destruct (c <=? 0) eqn:Ec; [lia|]. apply Z.leb_gt in Ec.
+  destruct (argmax_first l 0 None) as [j|]; [|lia]. clear -Ec. revert j.
+  induction l as [|r l IH]; intros [|j]; cbn [zupd]; try lia.
+  - rewrite !sumspec_cons, !sumkept_cons. unfold kept_avail. cbn [r_spec r_avail]. lia.
+  - rewrite !sumspec_cons, !sumkept_cons. specialize (IH j). lia.
+Qed.
+
+(* reconcileOldReplicaSets: the reserve and the availability floor *)
+Lemma reconcile_old_bounds d : nonneg (d_olds d) -> 0 <= r_avail (d_new d) <= r_spec (d_new d) ->
+  sumspec (d_olds (reconcile_old d)) >= Z.min (sumspec (d_olds d)) (d_n d - Z.max (limit d) (r_spec (d_new d))) /\
+  keptD (reconcile_old d) >= Z.min (d_n d - max_unavail d) (keptD d).
+Proof.
+  intros Hn Hnew. unfold reconcile_old.
+  destruct (sumspec (d_olds d) =? 0) eqn:E0; [split; lia|].
+  unfold scale_down_limit.
+  set (R := d_n d - Z.max (limit d) (r_spec (d_new d))).
+  destruct (sumspec (d_olds d) - R <=? 0) eqn:E1.
+  { destruct (scale_up_old_ge (d_olds d) (- (sumspec (d_olds d) - R))) as [A B]. unfold keptD. cbn [set_olds d_olds d_new]. split; lia. }
+  apply Z.leb_gt in E1. cbv zeta.
+  set (min_avail := d_n d - max_unavail d).
+  set (max_down := Z.min _ (sumspec (d_olds d) - R)).
+  destruct (max_down <=? 0) eqn:E2; [split; lia|]. apply Z.leb_gt in E2.
+  destruct (cleanup (d_olds d) max_down) as [l1 t] eqn:Hc.
+  destruct (cleanup_spec _ _ _ _ Hc Hn) as [N1 [L1 [T1 [S1 [A1 P1]]]]].
+  destruct (nonneg_sums _ Hn) as [Hs0 Hk0]. destruct (nonneg_sums _ N1) as [Hs1 Hk1].
+  assert (Hkd : keptD d = r_avail (d_new d) + sumavail (d_olds d)) by (unfold keptD, kept_avail; lia).
+  assert (Hmd : max_down <= sumspec (d_olds d) - R) by (subst max_down; lia).
+  destruct (r_avail (d_new d) + sumavail l1 <=? min_avail) eqn:E3.
+  { unfold keptD, kept_avail. cbn [set_olds d_olds d_new]. split; lia. }
+  apply Z.leb_gt in E3.
+  set (get := fun x : slot => match x with SNew => r_spec (d_new (set_olds d l1)) | SOld i => match nth_error l1 i with Some r => r_spec r | None => 0 end end).
+  set (ids := map (fun ir : nat * rs => SOld (fst ir)) (filter (fun ir : nat * rs => 0 <? r_spec (snd ir)) (combine (seq 0 (List.length (d_olds d))) (d_olds d)))).
+  set (k := zlen (filter (fun ir : nat * rs => 0 <? r_spec (snd ir)) (combine (seq 0 (List.length (d_olds d))) (d_olds d)))).
+  set (walk := if shares_backing k then if d_new_oldest d then firstn (Z.to_nat k) (SNew :: ids) else ids else rev ids).
+  change (fold_right (fun (x : slot) (a : Z) => get x + a) 0 walk) with (sumf get walk).
+  set (cnt := Z.min _ _).
+  assert (Hg : forall x, 0 <= get x).
+  { intros [|i]; unfold get; cbn [set_olds d_new]; [lia|]. apply (spec_at_nonneg l1 i N1). }
+  assert (Hb : below get (set_olds d l1)) by (split; [unfold get; cbn [set_olds d_new]; lia|intros i; unfold get, spec_at; cbn [set_olds d_olds]; lia]).
+  destruct (scale_slots_spec get Hg walk cnt) as [Hv [Hro Hr]].
+  destruct (fold_apply_bounds get Hg _ _ Hb Hv) as [SS [KK _]].
+  assert (Hids : sumf get ids <= sumspec l1).
+  { unfold ids. eapply Z.le_trans; [|apply (active_sum l1 (d_olds d) (fun ir => 0 <? r_spec (snd ir)) N1 L1)].
+    apply Z.eq_le_incl. apply sumf_ext_in. intros x Hx. apply in_map_iff in Hx. destruct Hx as [ir [<- _]]. reflexivity. }
+  (* the slots behind a possibly leading new-ReplicaSet slot *)
+  assert (Hrest : exists rest, (walk = rest \/ walk = SNew :: rest) /\ sumf get rest <= sumspec l1).
+  { unfold walk. destruct (shares_backing k).
+    - destruct (d_new_oldest d).
+      + destruct (Z.to_nat k) as [|k']; cbn [firstn].
+        * exists []. split; [left; reflexivity|rewrite sumf_nil; lia].
+        * exists (firstn k' ids). split; [right; reflexivity|]. pose proof (sumf_firstn get ids Hg k'). lia.
+      + exists ids. split; [left; reflexivity|exact Hids].
+    - exists (rev ids). split; [left; reflexivity|rewrite sumf_rev; exact Hids]. }
+  destruct Hrest as [rest [Hw Hsr]].
+  assert (Hcnt : cnt <= sumf get walk - R).
+  { subst cnt. match goal with |- Z.min _ ?b <= _ => assert (Hbb : b = sumf get walk - R) by (unfold R, get; cbn [set_olds d_new]; reflexivity); rewrite Hbb end. lia. }
+  pose proof (walk_red_old get walk rest cnt R Hg Hw Hcnt) as Hro2.
+  assert (Hk1' : keptD (set_olds d l1) = r_avail (d_new d) + sumavail l1) by (unfold keptD, kept_avail; cbn [set_olds d_olds d_new]; lia).
+  rewrite Hk1' in KK. change (d_olds (set_olds d l1)) with l1 in SS.
+  split.
+  - (* the reserve *) lia.
+  - (* availability *) subst cnt. lia.
+Qed.
+
+Lemma wf_parts d : wf_state d = true -> 0 <= d_n d /\ 0 <= r_avail (d_new d) <= r_spec (d_new d) /\ nonneg (d_olds d).
+Proof.
+  unfold wf_state. intros H. repeat (apply andb_true_iff in H; destruct H as [H ?]).
+  split_and; try lia. intros r Hr.
+  match goal with Hf : forallb _ _ = true |- _ => rewrite forallb_forall in Hf; specialize (Hf r Hr) end. lia.
+Qed.
+
+Lemma new_replicas_ge d : nonneg (d_olds d) -> r_spec (d_new d) < d_n d -> r_spec (d_new d) <= new_rs_new_replicas d.
+Proof.
+  intros Hn Hlt. unfold new_rs_new_replicas. destruct (nonneg_sums _ Hn) as [Hs _].
+  repeat match goal with |- context [if ?c then _ else _] => destruct c eqn:? end; lia.
+Qed.
+
+(* C17: the old ReplicaSets are never shrunk below what the partition reserves for them *)
+Theorem old_not_below_reserve d : wf_state d = true -> p_old_not_below_reserve d (sync d) = true.
+Proof.
+  intros Hwf. destruct (wf_parts d Hwf) as [Hn0 [Hnew Hn]]. unfold p_old_not_below_reserve. apply Z.leb_le.
+  unfold sync, reconcile_new.
+  destruct (r_spec (d_new d) =? d_n d) eqn:E1.
+  { destruct (reconcile_old_bounds d Hn Hnew) as [A _]. lia. }
+  destruct (d_n d <? r_spec (d_new d)) eqn:E2; [cbn [set_new d_olds]; lia|].
+  destruct (negb (new_rs_new_replicas d =? r_spec (d_new d))) eqn:E3; [cbn [set_new d_olds]; lia|].
+  apply negb_false_iff, Z.eqb_eq in E3.
+  destruct (reconcile_old_bounds (set_new d (new_rs_new_replicas d))) as [A _]; [exact Hn|cbn [set_new d_new r_avail r_spec]; lia|].
+  cbn [set_new d_olds d_new d_n r_spec] in A. unfold limit in *. cbn [set_new d_partition d_n] in A. rewrite E3 in A |- *. lia.
+Qed.
+
+(* C17: available pods are never scaled down below replicas - maxUnavailable (maxUnavailable is non-negative, as the
+   API server validates) *)
+Theorem availability_budget d : wf_state d = true -> 0 <= max_unavail d -> p_availability_budget d (sync d) = true.
+Proof.
+  intros Hwf Hmu. destruct (wf_parts d Hwf) as [Hn0 [Hnew Hn]]. unfold p_availability_budget. apply Z.leb_le.
+  change (total_kept d) with (keptD d). change (total_kept (sync d)) with (keptD (sync d)).
+  destruct (nonneg_sums _ Hn) as [Hs Hk].
+  unfold sync, reconcile_new.
+  destruct (r_spec (d_new d) =? d_n d) eqn:E1.
+  { destruct (reconcile_old_bounds d Hn Hnew) as [_ B]. lia. }
+  destruct (d_n d <? r_spec (d_new d)) eqn:E2.
+  { unfold keptD, kept_avail. cbn [set_new d_olds d_new r_spec r_avail]. lia. }
+  assert (Hge : r_spec (d_new d) <= new_rs_new_replicas d) by (apply new_replicas_ge; [exact Hn|lia]).
+  destruct (negb (new_rs_new_replicas d =? r_spec (d_new d))) eqn:E3.
+  { unfold keptD, kept_avail. cbn [set_new d_olds d_new r_spec r_avail]. lia. }
+  apply negb_false_iff, Z.eqb_eq in E3.
+  destruct (reconcile_old_bounds (set_new d (new_rs_new_replicas d))) as [_ B]; [exact Hn|cbn [set_new d_new r_avail r_spec]; lia|].
+  assert (Hk' : keptD (set_new d (new_rs_new_replicas d)) = keptD d) by (unfold keptD, kept_avail; cbn [set_new d_olds d_new r_spec r_avail]; rewrite E3; reflexivity).
+  assert (Hm' : max_unavail (set_new d (new_rs_new_replicas d)) = max_unavail d) by reflexivity.
+  cbn [set_new d_n] in B. rewrite Hk', Hm' in B. lia.
+Qed.
